@@ -697,21 +697,91 @@ fn gen_cuts(r: &mut Rng, total: usize) -> Option<Vec<usize>> {
     }
 }
 
+
+/// one reference of a distribution header as the sender decided it: (atom text, segment, internal index, new entry)
+type Entry = (Vec<u8>, u8, u8, bool);
+/// one header-mode message for the `c06form chist` line: (LongAtoms, references, bytes of the terms, the `131, 68` frame)
+type CMsg = (bool, Vec<Entry>, Vec<u8>, Vec<u8>);
+
+/// read `N, flags, refs…` of a well-formed `131, 68` frame back into the sender's decisions; the text of a reference to an
+/// existing entry comes from `slots` (what the sender's cache holds), which is updated with the new entries
+fn read_entries(frame: &[u8], slots: &mut std::collections::HashMap<(u8, u8), Vec<u8>>) -> Option<(bool, Vec<Entry>, usize)> {
+    if frame.len() < 3 || frame[0] != 131 || frame[1] != 68 {
+        return None;
+    }
+    let n = frame[2] as usize;
+    if n == 0 {
+        return Some((false, vec![], 3));
+    }
+    let fl = n / 2 + 1;
+    let flags = frame.get(3..3 + fl)?;
+    let nib = |i: usize| if i % 2 == 0 { flags[i / 2] & 15 } else { flags[i / 2] >> 4 };
+    let long = nib(n) & 1 == 1;
+    let mut pos = 3 + fl;
+    let mut es = vec![];
+    for i in 0..n {
+        let idx = *frame.get(pos)?;
+        pos += 1;
+        let seg = nib(i) & 7;
+        if nib(i) & 8 != 0 {
+            let len = if long {
+                let l = u16::from_be_bytes([*frame.get(pos)?, *frame.get(pos + 1)?]) as usize;
+                pos += 2;
+                l
+            } else {
+                let l = *frame.get(pos)? as usize;
+                pos += 1;
+                l
+            };
+            let text = frame.get(pos..pos + len)?.to_vec();
+            pos += len;
+            slots.insert((seg, idx), text.clone());
+            es.push((text, seg, idx, true));
+        } else {
+            es.push((slots.get(&(seg, idx))?.clone(), seg, idx, false));
+        }
+    }
+    Some((long, es, pos))
+}
+
+fn chist_word(msgs: &[CMsg]) -> String {
+    if msgs.is_empty() {
+        return "-".to_string();
+    }
+    msgs.iter()
+        .map(|(long, es, terms, frame)| {
+            let ew = if es.is_empty() {
+                "-".to_string()
+            } else {
+                es.iter()
+                    .map(|(a, seg, idx, new)| format!("{}:{}:{}:{}", if a.is_empty() { ".".to_string() } else { hex(a) }, seg, idx, if *new { "n" } else { "o" }))
+                    .collect::<Vec<_>>()
+                    .join(",")
+            };
+            format!("{};{};{};{}", *long as u8, ew, if terms.is_empty() { "-".to_string() } else { hex(terms) }, hex(frame))
+        })
+        .collect::<Vec<_>>()
+        .join("/")
+}
+
 /* ------------------------------------------------------------------------------------------------------------------ */
 
 struct Runner {
     listener: Arc<TcpListener>,
     case: usize,
+    /// also compare the model's atom cache with the reference receiver's after the history (`c06cache`); only for
+    /// histories without multi-fragment messages (the recorded finding makes the two caches differ there by design)
+    cache_check: bool,
 }
 
 impl Runner {
     /// run one history, write its T and P lines. `ptag` is the failure class of the oracle line; `lenient` names sequence
     /// ids whose frames the second (always `gen`) oracle line does not judge.
-    async fn one(&mut self, ctx: &mut Ctx, api: Api, mode: Mode, frames: &[Vec<u8>], cuts: Option<Vec<usize>>, ptag: &str, lenient: &[u64]) {
+    async fn one(&mut self, ctx: &mut Ctx, api: Api, mode: Mode, frames: &[Vec<u8>], cuts: Option<Vec<usize>>, ptag: &str, lenient: &[u64]) -> Vec<String> {
         self.case += 1;
         let Some(oracle) = history_oracle(frames) else {
             ctx.count("skipped_oracle_too_large");
-            return;
+            return vec![];
         };
         let res = run_history(&self.listener, self.case, api, mode, frames, cuts).await;
         ctx.count(&format!("histories_{}_{}", api.word(), mode.word()));
@@ -725,13 +795,21 @@ impl Runner {
         }
         if res.iter().any(|s| s == "timeout" || s == "too-large") {
             ctx.fail("c06-timeout", &format!("{} {} frames={} results={}", api.word(), mode.word(), fw, rw));
-            return;
+            return res;
         }
         if res.iter().any(|s| s == "connect-failed" || s == "header-mode-not-negotiated" || s == "no-read-half") {
             ctx.fail("c06-connect", &format!("{} {} results={}", api.word(), mode.word(), rw));
-            return;
+            return res;
         }
         ctx.tie("gen", &format!("c06recv {} {} {}", api.word(), oracle, fw), &rw);
+        if self.cache_check && api == Api::Conn && mode == Mode::Hdr {
+            ctx.prop("gen", &format!("c06cache {} {}", oracle, fw), "ok");
+        }
+        if api == Api::Rh && mode == Mode::Hdr {
+            // the read-half copy on a header-mode connection (recorded finding): judged at full strength, like `receive_message`
+            ctx.prop(ptag, &format!("c06oracle conn hdr {} {} {} -", oracle, fw, rw), "ok");
+            return res;
+        }
         if lenient.is_empty() {
             ctx.prop(ptag, &format!("c06oracle {} {} {} {} {} -", api.word(), mode.word(), oracle, fw, rw), "ok");
         } else {
@@ -739,6 +817,7 @@ impl Runner {
             ctx.prop(ptag, &format!("c06oracle {} {} {} {} {} -", api.word(), mode.word(), oracle, fw, rw), "ok");
             ctx.prop("gen", &format!("c06oracle {} {} {} {} {} {}", api.word(), mode.word(), oracle, fw, rw, lw), "ok");
         }
+        res
     }
 }
 
@@ -753,7 +832,7 @@ pub fn run(ctx: &mut Ctx) {
     rt.block_on(async {
         let epmd = FakeEpmd::start().await;
         let listener = Arc::new(listen_as(&epmd, "c06peer").await);
-        let mut run = Runner { listener, case: 0 };
+        let mut run = Runner { listener, case: 0, cache_check: false };
         let mut counts: Vec<String> = vec![];
 
         // A. pass-through histories: valid messages of every control kind, ticks anywhere, arbitrary segmentation;
@@ -788,6 +867,7 @@ pub fn run(ctx: &mut Ctx) {
             let len = ctx.rng.range(0, 5) as usize;
             let big = ctx.rng.chance(1, 25);
             let mut frames: Vec<Vec<u8>> = vec![];
+            let mut sent: Vec<CMsg> = vec![];
             for k in 0..len {
                 if ctx.rng.chance(1, 5) {
                     frames.push(vec![]);
@@ -795,6 +875,7 @@ pub fn run(ctx: &mut Ctx) {
                     continue;
                 }
                 let m = gen_h_message(&mut ctx.rng, big && frames.is_empty(), &mut counts);
+                sent.push((m.long, m.atoms.iter().enumerate().map(|(i, a)| (a.clone(), m.segs[i] & 7, i as u8, true)).collect(), m.terms(), m.frame()));
                 if ctx.rng.chance(1, 3) {
                     let seq = 1000 + k as u64;
                     let fs = m.fragments(seq, &[]);
@@ -814,6 +895,10 @@ pub fn run(ctx: &mut Ctx) {
             }
             let total: usize = frames.iter().map(|f| f.len() + 4).sum();
             let cuts = gen_cuts(&mut ctx.rng, total);
+            // the messages are a history of the conforming sender the theorems quantify over (Spec/DistHeader.lean)
+            if total < 20000 {
+                ctx.prop("gen", &format!("c06form chist {}", chist_word(&sent)), "ok");
+            }
             run.one(ctx, Api::Conn, Mode::Hdr, &frames, cuts, "gen", &[]).await;
             flush_counts(ctx, &mut counts);
         }
@@ -921,6 +1006,154 @@ pub fn run(ctx: &mut Ctx) {
                 run.one(ctx, Api::Conn, Mode::Hdr, &frames, cuts, "kf-c06-multi-fragment-order", &[seq]).await;
             }
             flush_counts(ctx, &mut counts);
+        }
+
+        // G. header-mode histories in which the peer's atom cache is carried across messages: references to entries created
+        //    by earlier headers, overwrites, boundary slots of every segment, ticks and junk in between. What the real
+        //    connection delivers is judged by the reference receiver of Spec/Peer.lean, which keeps the protocol's
+        //    (segment, index) cache.
+        let n_g = ctx.n(14, 120);
+        run.cache_check = true;
+        for i in 0..n_g {
+            let mut stats: Vec<&'static str> = vec![];
+            let mut frames: Vec<Vec<u8>> = vec![];
+            let mut sender = crate::c14::Sender::new(ctx.rng.next(), *ctx.rng.pick(&[256u64, 4, 2]), *ctx.rng.pick(&[8u64, 2, 1]));
+            let msgs: Vec<Vec<OwnedTerm>> = if i % 3 == 0 {
+                // a sweep over the boundary indices of all segments (or, now and then, over a random slice of all slots)
+                let slots: Vec<(u8, u8)> = if i % 6 == 0 {
+                    (0..8u8).flat_map(|s| [0u8, 1, 254, 255].into_iter().map(move |j| (s, j))).collect()
+                } else {
+                    let mut all: Vec<(u8, u8)> = (0..=255u8).flat_map(|j| (0..8u8).map(move |s| (s, j))).collect();
+                    ctx.rng.shuffle(&mut all);
+                    all.truncate(40);
+                    all
+                };
+                ctx.count("hdr_cache_sweep");
+                let chunk = 1 + ctx.rng.below(12) as usize;
+                crate::c14::sweep_messages(&mut ctx.rng, &mut sender, &slots, chunk)
+            } else {
+                let pool = ["ok", "error", "rex", "", "kéks", "x@h", "Elixir.Foo", "undefined", "b", "node@host"];
+                (0..ctx.rng.range(3, 8)).map(|_| {
+                    let control = OwnedTerm::Tuple(vec![
+                        OwnedTerm::Integer(6),
+                        OwnedTerm::Pid(erltf::types::ExternalPid::new(Atom::new(*ctx.rng.pick(&pool)), 5, 0, 1)),
+                        OwnedTerm::Atom(Atom::new("")),
+                        OwnedTerm::Atom(Atom::new(*ctx.rng.pick(&pool))),
+                    ]);
+                    let n = ctx.rng.below(5) as usize;
+                    let payload = OwnedTerm::Tuple((0..n).map(|_| OwnedTerm::Atom(Atom::new(*ctx.rng.pick(&pool)))).collect());
+                    vec![control, payload]
+                }).collect()
+            };
+            let mut sample: Vec<u8> = vec![];
+            let mut shadow: std::collections::HashMap<(u8, u8), Vec<u8>> = std::collections::HashMap::new();
+            let mut sent: Vec<CMsg> = vec![];
+            // per message: index of its frame among the frames that are no ticks, existing-entry references, overwrites
+            let mut per_msg: Vec<(usize, u64, u64)> = vec![];
+            for terms in &msgs {
+                if ctx.rng.chance(1, 5) {
+                    frames.push(vec![]);
+                    ctx.count("ticks_sent");
+                }
+                if !sample.is_empty() && ctx.rng.chance(1, 8) {
+                    let k = ctx.rng.below(JUNK_KINDS as u64) as usize;
+                    let (kind, junk) = gen_junk(&mut ctx.rng, k, Mode::Hdr, &sample);
+                    ctx.count(&format!("junk_{}", kind));
+                    frames.push(junk);
+                }
+                let bytes = sender.send(&mut ctx.rng, terms, &mut stats);
+                let before = shadow.clone();
+                if let Some((long, es, hlen)) = read_entries(&bytes, &mut shadow) {
+                    let olds = es.iter().filter(|e| !e.3).count() as u64;
+                    let overwrites = es.iter().filter(|e| e.3 && before.get(&(e.1, e.2)).map(|a| *a != e.0).unwrap_or(false)).count() as u64;
+                    per_msg.push((frames.iter().filter(|f| !f.is_empty()).count(), olds, overwrites));
+                    sent.push((long, es, bytes[hlen..].to_vec(), bytes.clone()));
+                } else {
+                    ctx.fail("c06-harness", "the sender model wrote a header the harness cannot read back");
+                }
+                if ctx.rng.chance(1, 4) {
+                    // the same message as a single fragment (fragment id 1): 131 69 seq id header terms
+                    let mut f = vec![131u8, 69];
+                    f.extend_from_slice(&(9000 + frames.len() as u64).to_be_bytes());
+                    f.extend_from_slice(&1u64.to_be_bytes());
+                    f.extend_from_slice(&bytes[2..]);
+                    ctx.count("hdr_cached_single_fragment");
+                    frames.push(f);
+                } else {
+                    frames.push(bytes.clone());
+                }
+                sample = bytes;
+            }
+            for st in stats {
+                ctx.count(&format!("cache_{}", st));
+            }
+            ctx.count("hdr_cache_histories");
+            let total: usize = frames.iter().map(|f| f.len() + 4).sum();
+            let cuts = if ctx.rng.chance(1, 2) { gen_cuts(&mut ctx.rng, total) } else { None };
+            ctx.prop("gen", &format!("c06form chist {}", chist_word(&sent)), "ok");
+            let res = run.one(ctx, Api::Conn, Mode::Hdr, &frames, cuts, "gen", &[]).await;
+            // how much of the cache traffic came through the real connection (only when results and frames line up one to
+            // one: a stray continuation among the junk returns nothing)
+            if res.len() == frames.iter().filter(|f| !f.is_empty()).count() {
+                for (k, olds, overwrites) in &per_msg {
+                    if res[*k].starts_with("ok~") {
+                        ctx.add("cached_refs_delivered", *olds);
+                        ctx.add("overwrites_delivered", *overwrites);
+                        ctx.count("cache_history_messages_delivered");
+                    }
+                }
+            } else {
+                ctx.count("cache_histories_not_aligned");
+            }
+            flush_counts(ctx, &mut counts);
+        }
+
+        // I. scripted: a malformed header that has written a cache slot before failing, then the sender re-creates the slot
+        //    (from then on every reference to it must resolve to the sender's atom again), or refers to it at once (no
+        //    longer ours to judge: Spec/Peer.lean `taint`, theorem C06_header_junk_isolated)
+        {
+            let ctl = [104u8, 4, 97, 6, 88, 119, 1, b'n', 0, 0, 0, 5, 0, 0, 0, 0, 0, 0, 0, 1, 119, 0, 82, 0];
+            let msg = |hdr: &[u8]| -> Vec<u8> {
+                let mut v = vec![131u8, 68];
+                v.extend_from_slice(hdr);
+                v.extend_from_slice(&ctl);
+                v
+            };
+            let create_foo = msg(&[1, 0x0b, 7, 3, b'f', b'o', b'o']);
+            let refer = msg(&[1, 0x03, 7]);
+            // two references announced: the first writes slot (3, 7) = bar, the frame ends inside the second
+            let junk = vec![131u8, 68, 2, 0xbb, 0x00, 7, 3, b'b', b'a', b'r', 9, 200, b'x'];
+            for (k, frames) in [
+                vec![create_foo.clone(), refer.clone(), junk.clone(), create_foo.clone(), refer.clone(), vec![], refer.clone()],
+                vec![create_foo.clone(), junk.clone(), refer.clone(), create_foo.clone(), refer.clone()],
+                vec![junk.clone(), create_foo.clone(), refer.clone()],
+            ]
+            .into_iter()
+            .enumerate()
+            {
+                let res = run.one(ctx, Api::Conn, Mode::Hdr, &frames, None, "gen", &[]).await;
+                // the guarantee itself, checked here as well: once the slot is re-created, `foo` and nothing else
+                let after_recreate = [vec![3usize, 4, 5], vec![3, 4], vec![1, 2]];
+                for &i in &after_recreate[k] {
+                    if res.get(i).map(|r| r.ends_with("to_name=A666f6f}~-")) != Some(true) {
+                        ctx.fail("gen", &format!("c06-recreated-slot history {} result {} = {:?}", frames_word(&frames), i, res.get(i)));
+                    }
+                }
+                ctx.count("scripted_taint_histories");
+            }
+        }
+
+        run.cache_check = false;
+
+        // H. the read-half copy on a header-mode connection (recorded finding KF-C06-read-half-header-mode): it has no atom
+        //    cache and no assembler and refuses every `131, …` frame. The fixed witness (one message that brings its atom
+        //    along) and a short cached history, replayed on every run, judged like `receive_message`.
+        {
+            let witness = vec![131u8, 68, 1, 0x0b, 7, 3, 97, 64, 104, 104, 1, 97, 5, 82, 0];
+            run.one(ctx, Api::Rh, Mode::Hdr, &[witness.clone()], None, "kf-c06-read-half-header-mode", &[]).await;
+            let old = vec![131u8, 68, 1, 0x03, 7, 104, 1, 97, 5, 82, 0];
+            run.one(ctx, Api::Rh, Mode::Hdr, &[witness, vec![], old], None, "kf-c06-read-half-header-mode", &[]).await;
+            ctx.count("readhalf_header_mode_witnesses");
         }
 
         // F. the fixed witness of the known finding, replayed on every run: {2, '', pid} ! [] in two fragments
